@@ -226,6 +226,13 @@ func (d *badgerNodeDB) cleanMultipartLocked(removeNodes bool) error {
 		return nil
 	}
 
+	// Never remove nodes of a version that has already been finalized. This can happen in case
+	// finalization of a restored version has been interrupted after the version was finalized but
+	// before the multipart restore log was cleaned up. In this case only the log is removed.
+	if lastFinalizedVersion, exists := d.meta.getLastFinalizedVersion(); exists && lastFinalizedVersion >= version {
+		removeNodes = false
+	}
+
 	txn := d.db.NewTransactionAt(tsMetadata, false)
 	defer txn.Discard()
 
